@@ -223,6 +223,42 @@ func genKeys(repo string) (string, []string, error) {
 	emitListing(&b, &notes, irk, "Keeper.SetPlan", "setPlanListing")
 	notes = append(notes, tri.notes...)
 
+	// ---- x/lockup : reference keys and iterator bounds -----------------------------------------------
+	lt, err := loadFiles(filepath.Join(repo, "x/lockup/types/keys.go"))
+	if err != nil {
+		return "", nil, err
+	}
+	trk := &bytesTranslator{p: lt, specs: map[string]*fnSpec{}, enumCases: map[string]string{}}
+	for _, c := range []string{"KeyIndexSeparator", "KeyPrefixNotUnlocking", "KeyPrefixUnlocking", "KeyPrefixTimestamp", "KeyPrefixDuration",
+		"KeyPrefixLockDuration", "KeyPrefixAccountLockDuration", "KeyPrefixDenomLockDuration", "KeyPrefixAccountDenomLockDuration",
+		"KeyPrefixLockTimestamp", "KeyPrefixAccountLockTimestamp", "KeyPrefixDenomLockTimestamp", "KeyPrefixAccountDenomLockTimestamp"} {
+		emitConstBytes(&b, &notes, trk, c, "lockup"+c)
+	}
+	lk, err := loadFiles(filepath.Join(repo, "x/lockup/keeper/utils.go"), filepath.Join(repo, "x/lockup/keeper/iterator.go"),
+		filepath.Join(repo, "x/lockup/keeper/lock_refs.go"), filepath.Join(repo, "x/lockup/keeper/store.go"))
+	if err != nil {
+		return "", nil, err
+	}
+	for _, fn := range []string{"combineKeys", "getTimeKey", "getDurationKey", "durationLockRefKeys", "lockRefKeys"} {
+		emitListing(&b, &notes, lk, fn, "lockup_"+fn+"_listing")
+	}
+	// iterator bounds and the storing side, one combined listing
+	var all []string
+	for _, fn := range []string{"unlockingPrefix", "Keeper.iteratorAfterTime", "Keeper.iteratorBeforeTime", "Keeper.iteratorDuration",
+		"Keeper.iteratorLongerDuration", "Keeper.iteratorShorterDuration", "Keeper.iterator",
+		"Keeper.LockIteratorBeforeTime", "Keeper.AccountLockIteratorBeforeTime", "Keeper.LockIteratorAfterTimeDenom",
+		"Keeper.LockIteratorLongerThanDurationDenom", "Keeper.AccountLockIterator", "Keeper.AccountLockIteratorDuration",
+		"Keeper.LockIteratorDenom", "Keeper.addLockRefs", "Keeper.addLockRefByKey"} {
+		fd := lk.funcs[fn]
+		if fd == nil || fd.Body == nil {
+			notes = append(notes, fn+": function not found in source")
+			all = append(all, "MISSING "+fn)
+			continue
+		}
+		all = append(all, listing(lk, fd)...)
+	}
+	fmt.Fprintf(&b, "/-- statement listings of the lockup iterator constructors and of the storing side -/\ndef lockupIteratorsListing : List String :=\n  %s\n\n", leanStrList(all))
+
 	b.WriteString("end DymVerif.Gen.Keys\n")
 	return b.String(), notes, nil
 }
